@@ -744,6 +744,130 @@ def update_pipeline(inp):
     return {"ok": witness is None, "cases": cases, "witness": witness}
 
 
+def _balance(net):
+    """(max node imbalance over supplied junctions, global feed-in vs signed load mismatch) from the result tables"""
+    import pandapipes as pp  # noqa
+    bal = {jn: 0. for jn in net.junction.index}
+    for comp in net.component_list:
+        tbl = comp.table_name()
+        if not hasattr(comp, "from_to_node_cols") or tbl not in net or len(net[tbl]) == 0:
+            continue
+        try:
+            fc, tc = comp.from_to_node_cols()
+        except Exception:  # noqa
+            continue
+        res = net["res_" + tbl]
+        if "mdot_from_kg_per_s" not in res.columns:
+            continue
+        for i, row in net[tbl].iterrows():
+            mf, mt = res.at[i, "mdot_from_kg_per_s"], res.at[i, "mdot_to_kg_per_s"]
+            if np.isnan(mf):
+                continue
+            bal[row[fc]] -= mf
+            bal[row[tc]] -= mt
+    load = 0.
+    for tbl, sgn in (("sink", 1.), ("mass_storage", 1.), ("source", -1.)):
+        if tbl in net and len(net[tbl]):
+            for i, row in net[tbl].iterrows():
+                v = net["res_" + tbl].at[i, "mdot_kg_per_s"]
+                if not np.isnan(v):
+                    bal[row.junction] -= sgn * v
+                    load += sgn * v
+    feed = 0.
+    if "ext_grid" in net and len(net.ext_grid):
+        for i, row in net.ext_grid.iterrows():
+            v = net.res_ext_grid.at[i, "mdot_kg_per_s"]       # negative = feeds into the net
+            if not np.isnan(v):
+                bal[row.junction] -= v
+                feed -= v
+    supplied = net.res_junction.index[~np.isnan(net.res_junction.p_bar.values)]
+    return max([abs(bal[jn]) for jn in supplied] + [0.]), abs(feed - load)
+
+
+def mass_balance(inp):
+    """reported mass flows balance at every supplied junction and over the network (property C01), on a family of
+    networks x options (scope in the evidence); tolerance 1e-7 kg/s (flows of order 1 kg/s)"""
+    import pandapipes as pp
+    cases, witness = 0, None
+    skipped = []
+    tol = 1e-7
+
+    def mesh(fluid, labels):
+        net = pp.create_empty_network(fluid=fluid)
+        j = list(pp.create_junctions(net, 7, pn_bar=5, tfluid_k=330., height_m=[0, 3, 1, 4, 0, 2, 9], index=labels))
+        pp.create_ext_grid(net, j[0], p_bar=5, t_k=350., type="pt")
+        pp.create_ext_grid(net, j[0], p_bar=5, type="p")
+        pp.create_ext_grid(net, j[5], p_bar=4.8, t_k=340., type="pt")
+        pp.create_ext_grid(net, j[3], p_bar=3, type="p", in_service=False)
+        pp.create_pipe_from_parameters(net, j[0], j[1], 0.4, 100., u_w_per_m2k=5., sections=3, index=7)
+        pp.create_pipe_from_parameters(net, j[1], j[2], 0.3, 100., u_w_per_m2k=5., index=2)
+        pp.create_pipe_from_parameters(net, j[1], j[3], 0.3, 80., u_w_per_m2k=5., sections=2, index=9)
+        pp.create_pipe_from_parameters(net, j[2], j[3], 0.2, 100., u_w_per_m2k=5., index=4)
+        pp.create_pipe_from_parameters(net, j[3], j[4], 0.2, 100., u_w_per_m2k=5., in_service=False, index=5)
+        pp.create_pipe_from_parameters(net, j[3], j[5], 0.25, 100., u_w_per_m2k=5., index=1)
+        pp.create_pipe_from_parameters(net, j[1], j[3], 0.35, 90., u_w_per_m2k=5., index=12)     # parallel branch
+        pp.create_valve(net, j[3], j[4], "ju", 100., opened=True)
+        pp.create_valve(net, j[5], j[6], "ju", 100., opened=False)
+        pp.create_sink(net, j[2], 0.7)
+        pp.create_sink(net, j[2], 0.2, scaling=0.5)
+        pp.create_sink(net, j[4], 1.1)
+        pp.create_sink(net, j[6], 0.3)                      # behind the closed valve: unsupplied
+        pp.create_sink(net, j[3], 0.4, in_service=False)
+        pp.create_source(net, j[3], 0.2)
+        pp.create_mass_storage(net, j[1], 0.15)
+        return net
+
+    def loop(variant):
+        net = pp.create_empty_network(fluid="water")
+        jf, j1, j2, j3, jr = pp.create_junctions(net, 5, pn_bar=5, tfluid_k=350., index=[4, 11, 2, 8, 6])
+        pp.create_circ_pump_const_pressure(net, jr, jf, p_flow_bar=5., plift_bar=2., t_flow_k=360.)
+        pp.create_pipe_from_parameters(net, jf, j1, 0.3, 100.)
+        pp.create_pipe_from_parameters(net, j1, j2, 0.2, 100.)
+        pp.create_heat_exchanger(net, j2, j3, 20000., 100.)
+        pp.create_pipe_from_parameters(net, j3, jr, 0.5, 100.)
+        pp.create_flow_control(net, j1, j3, 0.4)
+        if variant >= 1:
+            pp.create_sink(net, j2, 0.35)
+            pp.create_sink(net, j3, 0.10)
+            pp.create_source(net, j1, 0.05)
+            pp.create_ext_grid(net, jf, p_bar=5., type="p")
+        if variant >= 2:
+            pp.create_ext_grid(net, jf, p_bar=5., type="p")
+        return net
+
+    def run(tag, net, **kw):
+        nonlocal cases, witness
+        cases += 1
+        try:
+            pp.pipeflow(net, **kw)
+        except Exception as e:  # noqa  (not converging is not a C01 matter)
+            if type(e).__name__ == "PipeflowNotConverged":
+                skipped.append(tag + "/" + str(kw.get("mode")))
+                return
+            if witness is None:
+                witness = {"net": tag, "options": kw, "observed": "%s: %s" % (type(e).__name__, str(e)[:160])}
+            return
+        e = _balance(net)
+        if max(e) > tol and witness is None:
+            witness = {"net": tag, "options": kw, "observed": "node imbalance %.3e kg/s, network imbalance %.3e kg/s" % e}
+
+    for use_numba in (False, True):
+        for fluid in ("water", "lgas"):
+            for labels in ([0, 1, 2, 3, 4, 5, 6], [30, 2, 17, 5, 100001, 4, 9]):
+                for mode in ("hydraulics", "sequential") if fluid == "water" else ("hydraulics",):
+                    run("mesh/%s/%s" % (fluid, labels), mesh(fluid, labels), mode=mode, use_numba=use_numba)
+        for variant in (0, 1, 2):
+            for mode in ("hydraulics", "sequential", "bidirectional"):
+                run("circulation-loop/%d" % variant, loop(variant), mode=mode, use_numba=use_numba)
+        net = mesh("water", [0, 1, 2, 3, 4, 5, 6])
+        for step in range(3):
+            run("mesh/transient-step-%d" % step, net, mode="sequential", transient=True, dt=60., simulation_time_step=step,
+                use_numba=use_numba)
+    if len(skipped) > cases // 4 and witness is None:
+        witness = {"observed": "vacuous: %d of %d calculations did not converge" % (len(skipped), cases), "skipped": skipped[:6]}
+    return {"ok": witness is None, "cases": cases, "witness": witness, "not_converged": skipped}
+
+
 def main():
     inp = json.load(sys.stdin)
     fn = globals()[inp["what"]]
